@@ -38,8 +38,12 @@ def judge(ctx, path, label):
 
 
 def selftest(ctx, trace_path):
-    evs = vlib.read_ndjson(trace_path)[:50]
-    i = next(k for k, e in enumerate(evs) if e["title"]["some"])
+    allevs = vlib.read_ndjson(trace_path)
+    j = next(k for k, e in enumerate(allevs) if e["title"]["some"])
+    # a window of the trace that contains a titled address
+    start = max(0, j - 10)
+    evs = allevs[start:start + 50]
+    i = j - start
     muts = []
     m = json.loads(json.dumps(evs)); m[i]["ptitle"]["v"] += "x"
     muts.append(("title read back", m, i + 1))
